@@ -364,3 +364,45 @@ Proof. reflexivity. Qed.                                         (* MinInt64 / -
 Example ex_data : data_get (data_set (data_zero 8) 3 7) 3 = 7 /\ data_get (data_zero 8) 9 = 0
                   /\ data_set (data_zero 8) 9 1 = data_zero 8.
 Proof. repeat split. Qed.
+
+(** * 6. byte slices written through (fourth round): the stores keep the length; encoding/binary *)
+Lemma list_splice_length n src b : length (list_splice n src b) = length b.
+Proof.
+  revert n src; induction b as [| h t IH]; intros [| n] src; cbn; auto.
+  destruct src; cbn; auto.
+Qed.
+Lemma list_splice_nil n b : list_splice n [] b = b.
+Proof. revert n; induction b as [| h t IH]; intros [| n]; cbn; auto. now rewrite IH. Qed.
+Lemma bytes_set_len b i v : bytes_len (bytes_set b i v) = bytes_len b.
+Proof. unfold bytes_len, bytes_set. now rewrite list_set_length. Qed.
+Lemma bytes_splice_len b lo src : bytes_len (bytes_splice b lo src) = bytes_len b.
+Proof. unfold bytes_len, bytes_splice. now rewrite list_splice_length. Qed.
+Lemma bytes_copy_at_len a lo hi src : bytes_len (bytes_copy_at a lo hi src) = bytes_len a.
+Proof. unfold bytes_copy_at. apply bytes_splice_len. Qed.
+Lemma binary_le_PutUint16_len b lo v : bytes_len (binary_le_PutUint16 b lo v) = bytes_len b.
+Proof. apply bytes_splice_len. Qed.
+Lemma binary_le_PutUint32_len b lo v : bytes_len (binary_le_PutUint32 b lo v) = bytes_len b.
+Proof. apply bytes_splice_len. Qed.
+Lemma binary_le_PutUint64_len b lo v : bytes_len (binary_le_PutUint64 b lo v) = bytes_len b.
+Proof. apply bytes_splice_len. Qed.
+
+(** [le_byte v k] is a byte, and the four of them are the little-endian digits of a uint32 *)
+Lemma le_byte_mod v k : 0 <= k -> le_byte v k = Z.shiftr v (8 * k) mod 256.
+Proof. intros Hk. unfold le_byte. change 255 with (Z.ones 8). rewrite Z.land_ones by lia. reflexivity. Qed.
+Lemma le_byte_range v k : 0 <= k -> in_u 8 (le_byte v k).
+Proof. intros Hk. rewrite le_byte_mod by exact Hk. unfold in_u. change (2 ^ 8) with 256. apply Z.mod_pos_bound. lia. Qed.
+Lemma binary_le_Uint32_Put b v : in_u 32 v -> (4 <= length b)%nat ->
+  binary_le_Uint32 (binary_le_PutUint32 b 0 v) = v.
+Proof.
+  intros Hv Hb. do 4 (destruct b as [| ? b]; [cbn in Hb; lia |]).
+  unfold binary_le_PutUint32, bytes_splice, le_bytes4. cbn [Z.to_nat list_splice binary_le_Uint32].
+  rewrite !le_byte_mod by lia. rewrite !Z.shiftr_div_pow2 by lia.
+  change (8 * 0) with 0. change (8 * 1) with 8. change (8 * 2) with 16. change (8 * 3) with 24.
+  change (2 ^ 0) with 1. change (2 ^ 8) with 256. change (2 ^ 16) with 65536. change (2 ^ 24) with 16777216.
+  unfold in_u in Hv. change (2 ^ 32) with 4294967296 in Hv.
+  Z.div_mod_to_equations. lia.
+Qed.
+Example ex_binary_le : binary_le_Uint32 [0x78; 0x56; 0x34; 0x12; 0xff] = 0x12345678
+  /\ binary_le_PutUint32 [1; 2; 3; 4; 5; 6] 1 0x12345678 = [1; 0x78; 0x56; 0x34; 0x12; 6]
+  /\ binary_le_Uint16 [0x34; 0x12] = 0x1234 /\ binary_le_Uint32 [1; 2; 3] = 0.
+Proof. repeat split. Qed.
